@@ -952,7 +952,7 @@ class LieTensor(Tensor):
         ltypes = (Tensor if t is LieTensor or Parameter else t for t in types)
         data = Tensor.__torch_function__(func, ltypes, args, kwargs)
         if data is not None and hasattr(func, '__name__') and func.__name__ in HANDLED_FUNCTIONS:
-            args, spec = tree_flatten(args)
+            args, spec = tree_flatten((args, kwargs or {}))
             ltype = [arg.ltype for arg in args if isinstance(arg, LieTensor)][0]
             def wrap(t):
                 if isinstance(t, Tensor) and not isinstance(t, cls):
